@@ -512,7 +512,55 @@ def lemma_rule(ctx, res, rule, exact=True):
         n = Top(None, "n")
         return Agg(ty_of(inst), 0, (n,)), n
 
-    check(r"^<json_syntax::print::Spaces as std::fmt::Display>::fmt$", spaces_self, lambda s: ("w", Str(" ")), "Spaces")
+    # Spaces(n) for n = 0, 1, 3: writes n spaces (concrete runs: it does not matter whether the loop is written here or in a helper)
+    def spaces_grid():
+        insts = [i for i in P.inst if re.search(r"^<json_syntax::print::Spaces as std::fmt::Display>::fmt$", i["name"])]
+        if len(insts) != 1:
+            res.violation(rule, "%s/Spaces/missing" % rule, "Display for Spaces not found (anchor lost)")
+            return
+        inst = insts[0]
+        for n in (0, 1, 3):
+            key = "%s/Spaces(%d)" % (rule, n)
+            try:
+                text = run_concrete(inst, Agg(ty_of(inst), 0, (Conc(n),)))
+                if exact:
+                    res.ob(text == " " * n, rule, key, "Spaces(%d) writes %r" % (n, text), sample={"lemma": "Spaces", "n": n} if n == 3 else None)
+                else:
+                    res.ob(text is not None and text.strip(" \t\n\r") == "", rule, key, "Spaces(%d) writes something other than JSON whitespace: %r" % (n, text))
+            except Undecided as e:
+                res.violation(rule, key + "/undecided", "undecided: %s" % e)
+        res.count("lemmas")
+
+    def run_concrete(inst, selfval):
+        """Interpret a Display impl on a concrete receiver (ranges with constant bounds are stepped exactly); returns the text
+        written, or None if the run is not a single returning path of plain writes."""
+        it = tables.mk(P)
+        st = State()
+
+        def rnext(it_, st_, i_, args, call):
+            rty = ret_ty(it_, call)
+            r = it_.read_path(st_, args[0].base, args[0].proj)
+            if not (isinstance(r, Agg) and all(isinstance(x, Conc) for x in r.fields)):
+                raise Undecided("range with non-constant bounds %r" % (r,))
+            lo, hi = r.fields[0].v, r.fields[1].v
+            if lo >= hi:
+                return mk_none(rty)
+            it_.write_path(st_, args[0].base, args[0].proj, Agg(r.ty, r.variant, (Conc(lo + 1), Conc(hi))))
+            return mk_some(rty, Conc(lo))
+
+        it.summaries.insert(0, (lambda i_: bool(re.search(r"impl std::iter::Iterator for std::ops::Range<(usize|u8)>>::next$", i_["name"])), rnext))
+        cell = st.new_obj(selfval)
+        it.push_frame(st, inst["id"], [Ref(("H", cell.id), ()), Top(None, "f")], None, None)
+        outs = it.run(st)
+        rets = [o for o in outs if o.outcome[0] == "return"]
+        if len(outs) != 1 or len(rets) != 1:
+            return None
+        ev = [tuple(e) for e in rets[0].events]
+        if not all(e[0] == "w" and isinstance(e[1], Str) for e in ev):
+            return None
+        return "".join(e[1].s for e in ev)
+
+    spaces_grid()
 
     def indentby_self(inst):
         n = Top(None, "k")
@@ -580,11 +628,7 @@ def lemma_rule(ctx, res, rule, exact=True):
             return Agg(ty_of(inst), variant, (n,)), n
         return f
 
-    it_ty = [t for t in P.types if t.get("name") == "json_syntax::print::Indent"]
-    if it_ty:
-        vn = [v["name"] for v in it_ty[0]["variants"]]
-        check(r"^<json_syntax::print::Indent as std::fmt::Display>::fmt$", indent_self(vn.index("Spaces")), lambda s: ("w", Str(" ")), "Indent::Spaces", optional=True)
-        check(r"^<json_syntax::print::Indent as std::fmt::Display>::fmt$", indent_self(vn.index("Tabs")), lambda s: ("w", Str("\t")), "Indent::Tabs", optional=True)
+    # (Indent's own Display is covered by the IndentBy grid, which interprets it for n = 0, 1, 2)
     res.floor(rule, "lemmas", 2)
 
 
